@@ -35,7 +35,9 @@ RULE = (
     "constructors, UniformNormalMessage(..)-style calls and prior.message), then 3-8 operations "
     "(* / ** real exponent incl. <= 0, scalar * and /, .natural), queries (logpdf, factor, cdf, value_for, "
     "mean, variance, is_valid at points inside the support), conversions (from_natural_parameters, "
-    "from_sufficient_statistics) and projections of 5-60 weighted samples; non-trivial = the program "
+    "from_sufficient_statistics) and projections of 5-60 weighted samples; gamma / beta programs (shape parameters "
+    "0.05-80: logpdf inside / on the boundary of / outside the support, log_partition, sufficient and expected statistics, "
+    "raw invpsilog / inv_beta_suffstats, from_mode) and transformed messages stacked on transformed messages; non-trivial = the program "
     "contains at least one message-valued operation whose operands are valid messages; distinct = hash of the program"
 )
 
@@ -381,6 +383,8 @@ def exec_stmt(st, regs):
         return [p.message, q.message]
     if op in GB_OPS:
         return exec_stmt_gb(st, regs)
+    if op == "stackcheck":
+        return [("none", None)]
     m = regs[st["a"]]
     if op == "natural":
         return [("pair", nat_of(m))]
@@ -572,7 +576,7 @@ def model_prog(prog, regs, first, shape, i):
         elif op in ("logpdf", "factor", "cdf", "valuefor", "transform", "inverse"):
             mop = "logpdfx" if op == "logpdf" and fam_of(regs[st["a"]]) in ("gamma", "beta") else op
             out.append({"op": mop, "a": st["a"], "x": hx(st["x"], shape, i)})
-        elif op == "density":
+        elif op in ("density", "stackcheck"):
             out.append({"op": "valid", "a": st["a"]})
         else:
             raise ValueError(op)
@@ -1476,6 +1480,71 @@ def cmp_gb(ctx, case, st, r, mo, r_i, shape, i, scale):
         ctx.disagree("C17.query:" + op, case, {"reg": r_i, "elem": i, "impl": got}, want)
 
 
+def gen_stacked(rng, n):
+    """a transformed message used as the base of another transformed message (the constructor flattens the stacks):
+    CDF / density / quantiles of the outer message against those of the inner one at the transformed point"""
+    inner_v = rng.choice(["log", "log10", "shifted", "log-exp"])
+    outer = rng.choice([[{"t": "shift", "s": rfloat(rng, -3, 3), "c": rfloat(rng, 0.5, 4)}],
+                        [{"t": "exp"}], [{"t": "exp"}, {"t": "shift", "s": rfloat(rng, -2, 2), "c": rfloat(rng, 0.5, 3)}]])
+    prog = [gen_new(rng, "normal", n, mild=True),
+            {"op": "tnew", "b": 0, "trs": variant_trs(rng, inner_v), "id": fresh_id() if rng.random() < 0.5 else None,
+             "lo": -INF, "hi": INF}]
+    lims = rng.random() < 0.4
+    prog.append({"op": "tnew", "b": 1, "trs": outer, "id": fresh_id() if rng.random() < 0.5 else None,
+                 "lo": rfloat(rng, -9, -1) if lims else -INF, "hi": rfloat(rng, 1, 9) if lims else INF})
+    with np.errstate(all="ignore"):
+        regs, first, err = run_real(prog)
+        if err is not None:
+            return {"prog": prog}
+        x = point_in_support(rng, regs[2], None)
+    if x is None:
+        return {"prog": prog}
+    u = [round(rng.uniform(0.03, 0.97), 4) for _ in range(len(x))] if isinstance(x, list) else round(rng.uniform(0.03, 0.97), 4)
+    prog += [{"op": "stackcheck", "a": 2, "b": 1, "outer": outer, "x": x, "u": u},
+             {"op": "cdf", "a": 2, "x": x}, {"op": "factor", "a": 2, "x": x}, {"op": "logpdf", "a": 2, "x": x},
+             {"op": "valuefor", "a": 2, "x": u}, {"op": "mean", "a": 2}, {"op": "natural", "a": 2},
+             {"op": "transform", "a": 2, "x": x}]
+    if rng.random() < 0.5:
+        prog.append({"op": "mul", "a": 2, "b": 1})
+    return {"prog": prog}
+
+
+def oracle_stacked(ctx, case, prog, regs, first):
+    """wrap_change_of_variables on the real outputs: the outer message's CDF / density / quantile are the inner
+    message's at the point transformed by the harness' own reference transforms (plus the log-determinant)"""
+    with np.errstate(all="ignore"):
+        for n, st in enumerate(prog):
+            if st["op"] != "stackcheck" or first[n] >= len(regs):
+                continue
+            mo, mi = regs[st["a"]], regs[st["b"]]
+            shape = tuple(mo.shape)
+            size = int(np.prod(shape)) if shape else 1
+            xs = np.asarray(st["x"], dtype=float).ravel()
+            rec = Rec()
+            zs, lds = zip(*[ref_chain_det(rec, st["outer"], float(v)) for v in xs])
+            z = np.array(zs).reshape(shape) if shape else float(zs[0])
+            ld = np.array(lds).reshape(shape) if shape else float(lds[0])
+            pairs = [("cdf", mo.cdf(xarr(mo, st["x"])), mi.cdf(z)),
+                     ("factor", mo.factor(xarr(mo, st["x"])), np.asarray(mi.factor(z)) + ld),
+                     ("logpdf", mo.logpdf(xarr(mo, st["x"])), mi.logpdf(z))]
+            vi = np.asarray(mi.value_for(xarr(mi, st["u"])), dtype=float).ravel()
+            back = np.array([ref_inverse(rec, st["outer"], float(v)) for v in vi])
+            pairs.append(("value_for", np.asarray(mo.value_for(xarr(mo, st["u"]))).ravel(), back))
+            for what, got, want in pairs:
+                g, w = np.asarray(got, dtype=float).ravel(), np.asarray(want, dtype=float).ravel()
+                if g.shape != w.shape or not all(close(a, b, rel=1e-8, scale=1.0) for a, b in zip(g, w)):
+                    ctx.fail("C17-stacked-transform", f"a transformed message built on a transformed message: {what} is not "
+                             "the inner message's at the transformed point", case,
+                             {"stmt": n, "what": what, "got": jf(g), "expected": jf(w)})
+                else:
+                    ctx.hit("law:stacked:" + what)
+            if [canon_tr(t) for t in mo.transforms] != [canon_tr(t) for t in mi.transforms] + \
+                    [canon_tr(mk_tr(t)) for t in st["outer"]] or base_of(mo) is not base_of(mi):
+                ctx.fail("C17-stacked-transform", "a transformed message built on a transformed message does not carry the "
+                         "inner stack followed by the new transforms on the same base message", case, {"stmt": n})
+            _ = size
+
+
 def gen_gb(rng):
     """programs for the Gamma / Beta part of the model: densities inside, on the boundary of and outside the
     support (np.nan_to_num), log-partition, sufficient statistics, expected statistics, the raw Newton inversions
@@ -1490,6 +1559,8 @@ def gen_gb(rng):
     def many(f):
         return f() if n == 0 else [f() for _ in range(n)]
 
+    if r < 0.12:
+        return gen_stacked(rng, n)
     if r < 0.4:
         fam = rng.choice(["gamma", "beta", "gamma", "beta", "normal", "naturalNormal"])
         st = gen_new(rng, fam, n)
@@ -1660,6 +1731,7 @@ def one_case(ctx, case, label="gen", budget=None):
     oracle_queries(ctx, case, prog, regs, first, scale)
     oracle_density(ctx, case, prog, regs, first, budget)
     oracle_priors(ctx, case, prog, regs, first)
+    oracle_stacked(ctx, case, prog, regs, first)
 
 
 def stmt_of_reg(prog, first, r_i):
@@ -2098,8 +2170,10 @@ def run(ctx):
         "scipy's ndtr / ndtri / erfinv / norm_pdf are trusted: the model receives their values as tables; "
         "normalisation, CDF, mean and variance of the reported densities are checked by quadrature (numerical test, "
         "not a proof) except for the normal density, which is proved equal to Mathlib's gaussianPDFReal",
-        "densities of gamma / beta, the digamma inversions and array broadcasting between operands of different "
-        "shapes are not modelled (oracle / numerical test only)",
+        "gamma / beta densities, the Newton inversions of the digamma equations (invpsilog, inv_beta_suffstats), "
+        "from_mode and stacked transformed messages run in the model and are compared; gammaln / digamma / polygamma reach "
+        "the model as (argument, value, derivative) tables; convergence of the Newton iterations is not proved (oracle at "
+        "1e-5); array broadcasting between operands of different shapes is not modelled (oracle only)",
     ]
     ctx.notes["numerical_tests"] = 0
     budget = [ctx.n(70, 2500)]
